@@ -20,6 +20,8 @@ func ioNames(c *Case) (ins, outs []string) {
 	for i, t := range c.Inputs {
 		if t.Nil {
 			ins = append(ins, "")
+		} else if j := c.sameAs(i); j >= 0 {
+			ins = append(ins, ins[j])
 		} else {
 			ins = append(ins, fmt.Sprintf("in%d", i))
 		}
@@ -33,6 +35,10 @@ func ioNames(c *Case) (ins, outs []string) {
 func mkInputs(c *Case) ([]tensor.Tensor, error) {
 	out := make([]tensor.Tensor, len(c.Inputs))
 	for i, at := range c.Inputs {
+		if j := c.sameAs(i); j >= 0 {
+			out[i] = out[j]
+			continue
+		}
 		t, err := MkTensor(at)
 		if err != nil {
 			return nil, fmt.Errorf("input %d: %w", i, err)
@@ -102,7 +108,7 @@ func singleNodeModel(c *Case, firstInit int) ([]byte, error) {
 	}
 	g := &onnx.GraphProto{Name: "case", Node: []*onnx.NodeProto{node}}
 	for i, at := range c.Inputs {
-		if at.Nil {
+		if at.Nil || c.sameAs(i) >= 0 {
 			continue
 		}
 		if i >= firstInit {
